@@ -578,6 +578,89 @@ example : replay 2 [.enter 0, .enter 0, .leave 0, .enter 0, .leave 0, .request, 
 
 end nesting
 
+
+/-! ## growth without bound: batch after batch through any number of resizes -/
+
+/-- one `Store::batch()` with nothing open keeps the growth invariant and establishes it for the
+usage it found -/
+theorem grow_step (chunk : Nat) (hc : 0 < chunk) (e : REnv) (used u0 : Nat) (hk : e.chunk = chunk)
+    (inv : GrowOk chunk u0 e) :
+    let e1 := (maybeResize { e with openTxs := 0 } used).1
+    GrowOk chunk used e1 ∧ e1.chunk = chunk ∧ e.mapSize ≤ e1.mapSize ∧
+    (used * 10 > 9 * e.mapSize → e.mapSize < e1.mapSize) := by
+  subst hk
+  obtain ⟨hal, hge, _, hck, hrz, hpd⟩ := inv
+  intro e1
+  have he1 : e1 = (maybeResize { e with openTxs := 0 } used).1 := rfl
+  rcases maybeResize_cases { e with openTxs := 0 } used with ⟨hb, _⟩ | ⟨_, hn, heq⟩ | ⟨_, _, ho, _⟩ | ⟨_, hn, _, heq⟩
+  · simp [hck] at hb
+  · rw [he1, heq]
+    have hf := needsResize_false e.mapSize used e.chunk hn
+    exact ⟨⟨hal, hge, hf.2, rfl, hrz, hpd⟩, rfl, Nat.le_refl _, fun h => by have := hf.2; dsimp only at h ⊢; omega⟩
+  · simp at ho
+  · rw [he1, heq]
+    have hn' : (needsResize e.mapSize used e.chunk).1 = true := hn
+    obtain ⟨N, hN⟩ : ∃ N, (needsResize e.mapSize used e.chunk).2 = N := ⟨_, rfl⟩
+    have hlt := needsResize_lt e.mapSize used e.chunk hc hn'
+    have hmod := needsResize_mod e.mapSize used e.chunk hn'
+    have htarget := (needs_resize_grows e.mapSize used e.chunk N hc (Prod.ext hn' hN)).2 hge
+    rw [hN] at hlt hmod ⊢
+    refine ⟨⟨hmod, ?_, ?_, rfl, rfl, hpd⟩, rfl, ?_, fun _ => hlt⟩
+    · show e.chunk ≤ N; omega
+    · show used * 10 ≤ 9 * N; omega
+    · show e.mapSize ≤ N; omega
+
+/-- Growth without bound.  Start from a map that is a whole number of allocation chunks (the chunk
+a multiple of the OS page size) with the resize flags free, and issue ANY number of batches with
+nothing else open, each finding ANY usage.  Then after every one of them: the map is still a whole
+number of chunks, hence page-aligned; it never shrank; the usage that batch found is at most 90 %
+of it (at most 65 % if it was enlarged) — i.e. the map `needs_resize` leaves is large enough for
+what is there, however many resizes lie behind; guard and flag are free; and whenever the usage
+found was above the threshold the map is strictly larger than before that batch. -/
+theorem unbounded_growth_stays_aligned_and_sufficient (chunk pageSize : Nat) (hc : 0 < chunk)
+    (hp : chunk % pageSize = 0) :
+    ∀ (useds : List Nat) (e : REnv) (u0 : Nat), e.chunk = chunk → GrowOk chunk u0 e →
+      ∀ (pre : List Nat) (u : Nat), useds = pre ++ [u] →
+        let before := growRun e pre
+        let after := growRun e useds
+        after.mapSize % chunk = 0 ∧ after.mapSize % pageSize = 0 ∧ chunk ≤ after.mapSize ∧
+        e.mapSize ≤ before.mapSize ∧ before.mapSize ≤ after.mapSize ∧
+        u * 10 ≤ 9 * after.mapSize ∧
+        (u * 10 > 9 * before.mapSize → before.mapSize < after.mapSize) ∧
+        after.checking = false ∧ after.resizing = false ∧ after.pending = none := by
+  intro useds
+  induction useds with
+  | nil => intro e u0 _ _ pre u h; simp at h
+  | cons a r ih =>
+    intro e u0 hk inv pre u hsplit
+    have hstep := grow_step chunk hc e a u0 hk inv
+    simp only at hstep
+    obtain ⟨inv1, hk1, hmono, hgrow⟩ := hstep
+    cases pre with
+    | nil =>
+      simp only [List.nil_append, List.cons.injEq] at hsplit
+      obtain ⟨rfl, rfl⟩ := hsplit
+      simp only [growRun]
+      obtain ⟨hal, hge, hsuf, hck, hrz, hpd⟩ := inv1
+      refine ⟨hal, ?_, hge, Nat.le_refl _, hmono, hsuf, hgrow, hck, hrz, hpd⟩
+      have hd : chunk ∣ _ := Nat.dvd_of_mod_eq_zero hal
+      exact Nat.mod_eq_zero_of_dvd (Nat.dvd_trans (Nat.dvd_of_mod_eq_zero hp) hd)
+    | cons b pre' =>
+      simp only [List.cons_append, List.cons.injEq] at hsplit
+      obtain ⟨rfl, hr⟩ := hsplit
+      have := ih _ a hk1 inv1 pre' u hr
+      simp only [growRun] at this ⊢
+      obtain ⟨h1, h2, h3, h4, h5, h6, h7, h8⟩ := this
+      exact ⟨h1, h2, h3, Nat.le_trans hmono h4, h5, h6, h7, h8⟩
+
+/-- non-vacuity: twelve batches finding 0.95, 1.9, 2.85, … 11.4 MiB leave maps of 2, 3, 5, 5, 8, … 18 MiB,
+every one a multiple of the 1 MiB chunk and of the 4096-byte page -/
+example : (1048576 % 1048576 = 0 ∧ 1048576 ≤ (rinit 1048576 1048576).mapSize ∧ (rinit 1048576 1048576).pending = none) ∧
+    ((List.range 12).map (fun i => (growRun (rinit 1048576 1048576)
+      ((List.range (i + 1)).map (fun j => 996147 * (j + 1)))).mapSize / 1048576))
+      = [2, 3, 5, 5, 8, 8, 8, 12, 12, 12, 12, 18] := by
+  refine ⟨by decide, by decide⟩
+
 /-! ## no operation fails for lack of space — also with fragmented free space -/
 
 /-- A batch whose allocation requests (runs of contiguous pages: overflow pages of big values,
